@@ -210,6 +210,43 @@ def report(ctx, mismatches, limit=5):
                            implementation=m["impl"], model_and_spec=m["model"]), key=key)
 
 
+def compare_traces(cases, impl, model, counters):
+    """L5: step count and fingerprint of the real VM loop's step sequence vs the traced model (Model/Trace.lean);
+    returns the drifts (results are compared elsewhere)"""
+    drifts = []
+    counters.update(trace_compared=0, trace_drift=0, trace_skipped=0, trace_steps=0)
+    for cid, cline in cases.items():
+        parts = cline.split("\t")
+        if parts[0] != "trace":
+            continue
+        it = C.fields(impl.get(cid, "")).get("TR")
+        mt = C.fields(model.get(cid) or "").get("TR")
+        if it is None or mt is None or not it.startswith("n=") or not mt.startswith("n="):
+            counters["trace_skipped"] += 1      # compile error, budget, panic, incomplete: nothing to compare
+            continue
+        counters["trace_compared"] += 1
+        counters["trace_steps"] += int(it.split(" ")[0][2:])
+        if it != mt:
+            counters["trace_drift"] += 1
+            drifts.append(dict(id=cid, src=C.unhex(parts[1]), text=C.unhex(parts[2]), impl=it, model=mt))
+    return drifts
+
+
+def report_drift(ctx, counters, drifts=()):
+    """the structural ties (L4 bytecode, L5 step trace) are correspondences too: when they break and the run found no
+    input with a different observable result, the property is no longer shown to hold for the code as it is"""
+    n4 = counters.get("code_drift", 0) + counters.get("code2_drift", 0)
+    n5 = counters.get("trace_drift", 0)
+    if (n4 or n5) and not any(v["kind"] == "failing-input" for v in ctx.violations):
+        sample = [dict(source=d["src"].decode("latin1"), text=d["text"].decode("latin1"), implementation=d["impl"],
+                       model=d["model"]) for d in list(drifts)[:3]]
+        ctx.violation("tie", f"the generator / VM model no longer corresponds to the code structurally: {n4} bytecode drifts (L4: "
+                      f"Vore.gen / genBody vs generate.go), {n5} step-trace drifts (L5: Vore.step vs the VM loop, "
+                      "findMatchesT_fst); no input with a different observable result was found in this run",
+                      dict(bytecode_drifts=n4, trace_drifts=n5, samples=sample,
+                           code2_drift_samples=counters.get("code2_drift_samples")), found_input=False)
+
+
 def pred_failures(cases, impl, model, pred):
     """cases whose implementation result fails an executable property predicate run by the Lean driver"""
     out = []
@@ -252,5 +289,16 @@ def standard_run(ctx, genprop, fields=ALL_FIELDS, what="matches differ from the 
                         samples=samples, counters=counters, generator=stats,
                         structural_agreement=(counters["code_drift"] == 0),
                         traces_validated_against_impl=counters["compared"])
+    drifts = compare_traces(cases, impl, model, counters)
+    if counters["trace_compared"]:
+        ctx.coverage["traces_validated_against_impl"] = counters["trace_compared"]
+        ctx.coverage["structural_agreement"] = (counters["code_drift"] == 0 and counters["trace_drift"] == 0)
     report(ctx, mism)
+    if report_drift_for(genprop):
+        report_drift(ctx, counters, drifts)
     return cases, impl, model, counters
+
+
+def report_drift_for(genprop):
+    # the properties whose theorems are about the generated code and the VM's steps
+    return genprop in ("C01", "C02", "C03", "C13")
